@@ -89,12 +89,21 @@ def explore(chk, budget=1):
         assign = g.integers(0, nparts, n)
         lowonly = int(g.integers(0, nparts))
         assign[(assign == lowonly) & (rows['pi'] > 110)] = (lowonly + 1) % nparts
+        # one more part holds every event below 2 keV and nothing else: its polarization cubes and map cubes over 2-8 keV are blank, and it comes
+        # first in some of the orders (a band, a time slice or a detector unit without events in the product is an ordinary addend)
+        blank = nparts
+        assign[rows['pi'] < 50] = blank
+        nparts += 1
         gtis = [(T0, T1)]
         livetime = 1000.
         merged = write_part(g, d, 'merged.fits', rows, gtis, livetime)
         parts = [write_part(g, d, 'part%d.fits' % i, subset(rows, assign == i), gtis, livetime) for i in range(nparts)]
         sizes = [int((assign == i).sum()) for i in range(nparts)]
         orders = list(itertools.permutations(range(nparts))) if nparts <= 3 else [tuple(int(x) for x in g.permutation(nparts)) for _ in range(6)]
+        if not any(o[0] == blank for o in orders):
+            orders[1] = (blank,) + tuple(i for i in orders[1] if i != blank)
+        orders = sorted(orders, key=lambda o: (o[0] != blank, ))[:1] + [o for o in orders if o[0] != blank] + sorted(orders, key=lambda o: (o[0] != blank, ))[1:]
+        orders = list(dict.fromkeys(orders))
         edges = '[2., 3., 4.5, 6., 8.]'
 
         # ---------------------------------------------------------------- PCUBE
@@ -175,7 +184,7 @@ def explore(chk, budget=1):
         # ---------------------------------------------------------------- LC: equal exposures (exact additivity of counts), then unequal / zero exposures (rate additivity)
         additive('LC', xBinnedLightCurve, ['COUNTS', 'EXPOSURE'], ['--tbins', 16])
         gt2 = [(T0, T0 + 400.), (T0 + 640., T1)]            # one file with a GTI hole covering whole time bins
-        lt = [1000., 700., 900., 800.]
+        lt = [1000., 700., 900., 800., 950., 850.]
         lparts = []
         for i in range(nparts):
             r = subset(rows, assign == i)
